@@ -232,11 +232,10 @@ def parse_assumptions(log, printed):
 
 # axioms of the standard library that the brief allows, when named in the trusted base
 ALLOWED_AXIOMS = {
+    # exactly the standard-library axioms named in DESIGN.md section 7 (used through Flocq's real numbers by a few
+    # theorems of C17 and C20 only)
     "ClassicalDedekindReals.sig_forall_dec", "ClassicalDedekindReals.sig_not_dec",
-    "FunctionalExtensionality.functional_extensionality_dep",
-    "functional_extensionality_dep", "sig_forall_dec", "sig_not_dec",
-    "Classical_Prop.classic", "classic", "proof_irrelevance", "ProofIrrelevance.proof_irrelevance",
-    "JMeq.JMeq_eq", "JMeq_eq", "Eqdep.Eq_rect_eq.eq_rect_eq", "eq_rect_eq",
+    "FunctionalExtensionality.functional_extensionality_dep", "Classical_Prop.classic",
 }
 
 
@@ -301,10 +300,14 @@ def coq_prove(prop, extra_targets=()):
     bad = hygiene(clo, prop)
     if bad:
         res["problems"] += ["hygiene: " + b for b in bad]
-    not_allowed = [a for a in res["axioms"] if a not in ALLOWED_AXIOMS and a.split(".")[-1] not in ALLOWED_AXIOMS]
+    short = {a.split(".")[-1] for a in ALLOWED_AXIOMS}
+    not_allowed = [a for a in res["axioms"] if a not in ALLOWED_AXIOMS and a not in short]
+    # only the properties whose trusted base names them may depend on those axioms at all
+    if prop not in ("C17", "C20"):
+        not_allowed = list(res["axioms"])
     if not_allowed:
         res["problems"] += ["axiom not in allow-list: " + a for a in not_allowed]
-    unprinted = [n for (k, n, l) in thms if k == "Theorem" and n not in printed]
+    unprinted = [n for (k, n, l) in thms if k in ("Theorem", "Lemma", "Corollary") and n not in printed]
     res["unprinted"] = unprinted
     # a generator that could not translate a piece of the current source (MISSING / FALLBACK) leaves the
     # theorems that depend on that piece unchecked against the code: fail closed, uniformly for every property
